@@ -270,6 +270,16 @@ class ScriptRunner:
             raw_file(self, t[1], unhx(t[2]))
             self.last = Outcome('ok')
             return 'ok'
+        if op == 'rawlink':
+            from .osm import raw_dangling_link
+            raw_dangling_link(self, t[1], unhx(t[2]))
+            self.last = Outcome('ok')
+            return 'ok'
+        if op == 'rawsock':
+            from .osm import raw_socket
+            raw_socket(self, t[1], unhx(t[2]))
+            self.last = Outcome('ok')
+            return 'ok'
         if op == 'embedfile':
             sets = self.__dict__.setdefault('embed_all', {})
             sets.setdefault('embed', ex.hooks.setdefault('embed_files', {}))[tuple(unhx(t[1]))] = self.arg_bytes(t[2])
